@@ -42,7 +42,8 @@ def generate(prop, seed, tier='quick', sub='crash'):
     opts = gen.make_opts(rng, len(pool))
     weights = dict(gen.BASE_WEIGHTS, reinit=0, reopen=0.3, plant_duplicate=0.6)
     pre_ops = gen.gen_history(rng, len(pool), rng.randint(2, 10), weights=weights, opts=opts, with_b=True)
-    kind = rng.choice(VICTIMS + ['add_pack', 'pack_loose'])
+    # (C17 also takes read operations as victims: under a fault a read may raise, never return wrong bytes)
+    kind = rng.choice(VICTIMS + ['add_pack', 'pack_loose'] + (['read', 'read'] if sub == 'fault' else []))
     vopts = gen.make_opts(rng, len(pool))
     victim = gen.gen_op(rng, kind, len(pool), vopts)
     victim.pop('from_key', None)
